@@ -209,6 +209,18 @@ def r08_4(ctx):
     outs = Interp(idx).explore(lambda i: i.call_function(fd, [EnumV("SubRoutineInitType", "DEF", et["DEF"])], self_obj=mk_sr()))
     d2 = " | ".join(sorted({normalise(outcome_text(o)) for o in outs}))
     ctx.check("definition = declaration + body", d2 == "RZ_OWN RzILOpEffect *hex_clz32(RZ_BORROW RzILOpPure *t){BODY}", "declaration followed by the compiled body", d2, fn_where(idx, fd))
+    # the same C function name at the call and at the declaration, whatever the routine is called (capitals, digits, underscores)
+    for rname in ("clz32", "getBit", "fSATN", "sat_inc_2", "X"):
+        def mk2(rname=rname):
+            sr = mk_sr()
+            sr.fields["routine_name"] = rname
+            sr.fields["name"] = rname
+            return sr
+        outs = Interp(idx).explore(lambda i: i.call_function(fw, [], self_obj=AObj("SubRoutineCall", {"sub_routine": mk2(), "args": [mk_pure("a")]}, label="self")))
+        c_ = {normalise(outcome_text(o)).split("(")[0] for o in outs}
+        outs = Interp(idx).explore(lambda i: i.call_function(fd, [EnumV("SubRoutineInitType", "DECL", et["DECL"])], self_obj=mk2()))
+        d_ = {normalise(outcome_text(o)).split("(")[0].split("*")[-1] for o in outs}
+        ctx.check(f"routine {rname}: the function that is called is the function that is declared", len(c_) == 1 and c_ == d_, "one C name at both sites", f"called {sorted(c_)}, declared {sorted(d_)}", fn_where(idx, fd), nontrivial=(rname != "clz32"))
     outs = Interp(idx).explore(lambda i: i.call_function(fw, [], self_obj=AObj("SubRoutineCall", {"sub_routine": mk_sr(), "args": [mk_pure("a"), mk_pure("b")]}, label="self")))
     ctx.check("call with a wrong number of arguments raises", all(o.kind == "raise" for o in outs), "raises", str([outcome_text(o)[:30] for o in outs]), fn_where(idx, fw))
 
@@ -368,6 +380,23 @@ def return_positions_lint(ctx):
         ctx.check(f"position analysis on `{code[:40]}`", got == exp, str(exp), str(got), "verif/rules/c08.py", nontrivial=False)
 
 
+def prologue_checks(ctx):
+    """a routine body that mentions pkt / hi declares them (and only then), wherever in a line the mention stands"""
+    idx = get_index(ctx.env)
+    fi = idx.func("SubRoutine.check_for_bundle_usage")
+    probes = (("x = pkt->a;", ["pkt"]), ("y = ISA2REG(hi, 's');", ["hi"]), ("READ_REG(pkt, x); ISA2REG(hi, 's');", ["hi", "pkt"]), ("a = b;", []), ("pktx = 1; this = 2;", []),
+              ('RzILOpPure *c = ITE(VARL("lo"), READ_REG(pkt, Rx_op, true), VARL("up"));', ["pkt"]),
+              ('// note\nRzILOpEffect *e = SEQN(2, SETL("a", x), HEX_STORE_SLOT_CANCELLED(pkt, hi->slot));', ["hi", "pkt"]))
+    for code, exp in probes:
+        outs = Interp(idx).explore(lambda i, code=code: i.call_function(fi, [code], self_obj=AObj("SubRoutine", {}, label="self")))
+        got = []
+        for o in outs:
+            t = to_text(o.value)
+            got = sorted(x for x, decl in (("pkt", "HexPkt *pkt = bundle->pkt;"), ("hi", "const HexInsn *hi = bundle->insn;")) if decl in t)
+            ok_wrap = t.startswith("{\n") and t.endswith("\n}") and code in t
+            ctx.check(f"prologue for body `{code[:50]}`", got == exp and ok_wrap and len(outs) == 1, f"declares {exp}, body wrapped in braces", f"declares {got}", fn_where(idx, fi))
+
+
 @rule("R08.6", "C08", "resource lint: locals of the bundled routines are pairwise disjoint (flat IL namespace); bodies that use operands take the bundle; prologue rule for pkt/hi", min_instances=12)
 def r08_6(ctx):
     idx = get_index(ctx.env)
@@ -394,16 +423,7 @@ def r08_6(ctx):
             common = sorted(locals_[names[a]] & locals_[names[b]])
             ctx.check(f"locals of {names[a]} / {names[b]} disjoint", not common, "no common local names", str(common), rel, nontrivial=False)
     return_positions_lint(ctx)
-    # prologue rule
-    fi = idx.func("SubRoutine.check_for_bundle_usage")
-    for code, exp in (("x = pkt->a;", ["pkt"]), ("y = ISA2REG(hi, 's');", ["hi"]), ("READ_REG(pkt, x); ISA2REG(hi, 's');", ["hi", "pkt"]), ("a = b;", []), ("pktx = 1; this = 2;", [])):
-        outs = Interp(idx).explore(lambda i, code=code: i.call_function(fi, [code], self_obj=AObj("SubRoutine", {}, label="self")))
-        got = []
-        for o in outs:
-            t = to_text(o.value)
-            got = sorted(x for x, decl in (("pkt", "HexPkt *pkt = bundle->pkt;"), ("hi", "const HexInsn *hi = bundle->insn;")) if decl in t)
-            ok_wrap = t.startswith("{\n") and t.endswith("\n}") and code in t
-            ctx.check(f"prologue for body `{code}`", got == exp and ok_wrap and len(outs) == 1, f"declares {exp}, body wrapped in braces", f"declares {got}", fn_where(idx, fi))
+    prologue_checks(ctx)
 
 
 def c_type_table(ctx):
